@@ -265,7 +265,7 @@ Lemma try_right_steal_spec h ea pe eb ka l r kb lol :
       try_right_steal t p (length ka) = Ok (Node false (ea ++ re :: eb) (ka ++ l' :: r' :: kb), true) /\
       wfn lol h l' /\ wfn (t_min t) h r' /\
       length (n_elts l') = S (length (n_elts l)) /\ S (length (n_elts r')) = length (n_elts r) /\
-      elements l' ++ re :: elements r' = elements l ++ pe :: elements r.
+      elements l' ++ re :: elements r' = elements l ++ pe :: elements r /\ In re (elements r).
 Proof.
   intros H1 H2 Hl Hr Hlen p. subst p. unfold try_right_steal.
   rewrite split_at_app by reflexivity. cbn [bind].
@@ -280,7 +280,7 @@ Proof.
     2:{ inversion Hh; subst. destruct sks; [discriminate|]. inversion Hlall; subst.
         match goal with H : wfn _ 0 _ |- _ => apply wfn_pos in H end. lia. }
     exists (Node true (ses ++ [pe]) []), re, (Node true res' []). split; [reflexivity|].
-    cbn in *. repeat split; try (constructor; rewrite ?app_length; cbn; lia); rewrite ?app_length; cbn; try lia.
+    cbn in *. repeat split; try (constructor; rewrite ?app_length; cbn; lia); rewrite ?app_length; cbn; try lia; auto.
     now rewrite <- app_assoc.
   - apply wfn_inv in Hl as (Hlb & [(-> & Hh & ->)|(-> & h'' & Hh & Hlk & Hlall)]).
     { inversion Hh; subst. destruct rks; [discriminate|]. inversion Hrall; subst.
@@ -291,11 +291,102 @@ Proof.
     cbn [n_elts length] in *.
     split; [constructor; rewrite ?app_length; cbn [length]; try lia; apply Forall_app; split; [assumption|now constructor]|].
     split; [constructor; try assumption; lia|].
-    split; [rewrite app_length; cbn [length]; lia|]. split; [reflexivity|].
-    rewrite !elements_node, interleave_snoc by assumption. cbn [interleave]. now rewrite <- app_assoc.
+    split; [rewrite app_length; cbn [length]; lia|]. split; [reflexivity|]. split.
+    + rewrite !elements_node, interleave_snoc by assumption. cbn [interleave]. now rewrite <- app_assoc.
+    + rewrite elements_node. cbn [interleave]. apply in_or_app. right. now left.
 Qed.
 
 Lemma try_right_steal_last p i a x : split_at i (n_kids p) = Ok (a, x, []) -> try_right_steal t p i = Ok (p, false).
 Proof. destruct p as [lf es ks]. cbn. unfold try_right_steal. intros ->. reflexivity. Qed.
+
+(* ---------------------------------------------------------------- steal from the left sibling *)
+
+Lemma interleave_last {A B} (es : list A) (ks : list B) : length ks = S (length es) -> ks <> [] ->
+  exists ks' k, ks = ks' ++ [k] /\ length ks' = length es.
+Proof using.
+  clear Ht. intros Hl Hne. destruct (exists_last Hne) as (ks' & k & ->). exists ks', k. split; [reflexivity|].
+  rewrite app_length in Hl. cbn in Hl. lia.
+Qed.
+
+(* p = Node false (ea ++ pe :: eb) (ka ++ l :: r :: kb): kid r (index S |ka|) takes the separator
+   in front, the last key of l moves up *)
+Lemma try_left_steal_spec h ea pe eb ka l r kb lor :
+  length ka = length ea -> length kb = length eb ->
+  wfn (t_min t) h l -> wfn lor h r -> (length (n_elts r) < t_max t)%nat ->
+  let p := Node false (ea ++ pe :: eb) (ka ++ l :: r :: kb) in
+  if (length (n_elts l) =? t_min t)%nat then try_left_steal t p (S (length ka)) = Ok (p, false)
+  else exists l' le r',
+      try_left_steal t p (S (length ka)) = Ok (Node false (ea ++ le :: eb) (ka ++ l' :: r' :: kb), true) /\
+      wfn (t_min t) h l' /\ wfn lor h r' /\
+      S (length (n_elts l')) = length (n_elts l) /\ length (n_elts r') = S (length (n_elts r)) /\
+      elements l' ++ le :: elements r' = elements l ++ pe :: elements r /\ In le (elements l).
+Proof.
+  intros H1 H2 Hl Hr Hlen p. subst p. unfold try_left_steal.
+  rewrite split_at_app by reflexivity. cbn [bind].
+  rewrite (is_minimal_ok _ _ Hl). cbn [bind].
+  destruct (Nat.eqb_spec (length (n_elts l)) (t_min t)) as [Hm|Hm]; [reflexivity|].
+  rewrite split_at_app by congruence. cbn [bind].
+  destruct l as [llf les lks]. destruct r as [slf ses sks]. cbn [n_elts] in *.
+  pose proof (wfn_len _ _ _ Hl) as Hll. cbn [n_elts] in Hll.
+  destruct (pop_last_ok les) as (les' & le & -> & ->).
+  { destruct les; [cbn in *; unfold t_min in *; lia|discriminate]. }
+  cbn [bind]. rewrite app_length in *. cbn [length] in *.
+  apply wfn_inv in Hl as (Hlb & [(-> & -> & ->)|(-> & h' & -> & Hlk & Hlall)]).
+  - apply wfn_inv in Hr as (Hrb & [(-> & _ & ->)|(-> & h'' & Hh & Hrk & Hrall)]).
+    2:{ inversion Hh; subst. destruct sks; [discriminate|]. inversion Hrall; subst.
+        match goal with H : wfn _ 0 _ |- _ => apply wfn_pos in H end. lia. }
+    exists (Node true les' []), le, (Node true (pe :: ses) []). split; [reflexivity|].
+    cbn [n_elts elements length]. repeat split; try (constructor; cbn [length]; lia); try lia.
+    + now rewrite <- app_assoc.
+    + apply in_or_app. right. now left.
+  - apply wfn_inv in Hr as (Hrb & [(-> & Hh & ->)|(-> & h'' & Hh & Hrk & Hrall)]).
+    { inversion Hh; subst. destruct lks; [discriminate|]. inversion Hlall; subst.
+      match goal with H : wfn _ 0 _ |- _ => apply wfn_pos in H end. lia. }
+    inversion Hh; subst h''.
+    destruct (interleave_last (les' ++ [le]) lks) as (lks' & lc & -> & Hlks').
+    { exact Hlk. } { intros ->. discriminate Hlk. }
+    rewrite app_length in Hlks'. cbn [length] in Hlks'.
+    rewrite pop_last_app. cbn [bind].
+    apply Forall_app in Hlall as (Hlall & Hlc). inversion Hlc; subst.
+    exists (Node false les' lks'), le, (Node false (pe :: ses) (lc :: sks)). split; [reflexivity|].
+    cbn [n_elts length]. repeat split; try lia.
+    + constructor; try assumption; lia.
+    + constructor; cbn [length]; try lia. now constructor.
+    + rewrite !elements_node. rewrite interleave_snoc by lia. cbn [interleave]. now rewrite <- app_assoc.
+    + rewrite elements_node, interleave_snoc by lia. apply in_or_app. right. now left.
+Qed.
+
+Lemma try_left_steal_zero p : try_left_steal t p 0 = Ok (p, false).
+Proof. destruct p. reflexivity. Qed.
+
+(* ---------------------------------------------------------------- merge *)
+
+Lemma merge_spec h ea pe eb ka l r kb :
+  length ka = length ea -> length kb = length eb ->
+  wfn (t_min t) h l -> wfn (t_min t) h r ->
+  (length (n_elts l) + S (length (n_elts r)) <= t_max t)%nat ->
+  exists m, merge (Node false (ea ++ pe :: eb) (ka ++ l :: r :: kb)) (length ka)
+            = Ok (Node false (ea ++ eb) (ka ++ m :: kb)) /\
+    wfn (t_min t) h m /\ elements m = elements l ++ pe :: elements r /\
+    length (n_elts m) = (length (n_elts l) + S (length (n_elts r)))%nat.
+Proof.
+  intros H1 H2 Hl Hr Hlen. unfold merge.
+  rewrite split_at_app by reflexivity. cbn [bind]. rewrite split_at_app by congruence. cbn [bind].
+  destruct l as [slf ses sks]. destruct r as [rlf res_ rks]. cbn [n_elts] in *.
+  apply wfn_inv in Hl as (Hlb & [(-> & -> & ->)|(-> & h' & -> & Hlk & Hlall)]).
+  - apply wfn_inv in Hr as (Hrb & [(-> & _ & ->)|(-> & h'' & Hh & Hrk & Hrall)]).
+    2:{ inversion Hh; subst. destruct rks; [discriminate|]. inversion Hrall; subst.
+        match goal with H : wfn _ 0 _ |- _ => apply wfn_pos in H end. lia. }
+    eexists. split; [reflexivity|]. cbn [n_elts elements]. rewrite app_length. cbn [length].
+    repeat split; try lia. constructor. rewrite app_length. cbn [length]. lia.
+  - apply wfn_inv in Hr as (Hrb & [(-> & Hh & ->)|(-> & h'' & Hh & Hrk & Hrall)]).
+    { inversion Hh; subst. destruct sks; [discriminate|]. inversion Hlall; subst.
+      match goal with H : wfn _ 0 _ |- _ => apply wfn_pos in H end. lia. }
+    inversion Hh; subst h''.
+    eexists. split; [reflexivity|]. cbn [n_elts]. rewrite app_length. cbn [length].
+    repeat split; try lia.
+    + constructor; rewrite ?app_length; cbn [length]; try lia. apply Forall_app. auto.
+    + rewrite !elements_node. apply interleave_app; assumption.
+Qed.
 
 End WF.
